@@ -38,6 +38,7 @@ type c08Sys struct {
 	events  []c08Event
 	lazy    bool
 	limit1  bool
+	big     bool // 3 KB compressible bodies: stored as gzip + br only, served to clients that accept neither
 	// the last event's store operations are the only ones a kill can lose (it was still in progress)
 	opsBefore int
 	prevSpec  map[string]oracle.Entry
@@ -100,7 +101,11 @@ func (s *c08Sys) Reset() {
 		if oc.Path == "/k2" {
 			return env.Uncacheable(oc, "p")
 		}
-		r := env.Cacheable(oc, c08T, "p")
+		payload := "p"
+		if s.big {
+			payload = strings.Repeat("p", 3000)
+		}
+		r := env.Cacheable(oc, c08T, payload)
 		r.Header.Set("X-Multi", "a")
 		r.Header.Add("X-Multi", "b")
 		return r
@@ -291,6 +296,9 @@ func init() {
 		c.runBFS("bfs-crash-ttl-store", newC08Sys(false, false), depth, nil)
 		c.runBFS("bfs-crash-lazy-store", newC08Sys(true, false), depth, nil)
 		c.runBFS("bfs-crash-evict-limit1", newC08Sys(false, true), depth, nil)
+		bigSys := newC08Sys(false, true)
+		bigSys.big = true
+		c.runBFS("bfs-crash-evict-limit1-compressed-bodies", bigSys, depth-1, nil)
 		pre := 2
 		if c.Thorough() {
 			pre = 3
